@@ -422,7 +422,8 @@ func runC07(w *core.W) {
 		"rec($i = 1) + rec($i = $i + 1) + $i", "x ? ($i = 1) : ($j = 2)", "zz ? ($i = 1) : ($j = 2)", "($i = 2, $i) + ($i = 3, $i)", "$p = [$i = 4, $i + 1], $p", "$i = $j = $k = 9, [$i, $j, $k]",
 		"$k", "this.$i", "$i = x, $i + this.x", "rec(rec(1) + rec(2))", "[[rec(1)], [rec(2), [rec(3)]]]", "rec($i = 1, $i, $i = 2, $i)", "rec(rec(1), rec(2), rec(3))", "rec($j, $j = 5, $j)", "$q = ($p = [1]), $q", "$i = 1, x = 2", "$i = 1, rec($i), m.k = 2",
 		"$f = rec, $f(($f = rec2, 5), 9)", "$f = rec2, $f(($f = rec, 5), 9)", "$f(($f = rec2, 1), 2)", "$f = rec, $g = rec2, $f($g(1, 2), ($g = rec, $g(3, 4)))", "$f = rec, [$f(1, 2), ($f = rec2, 0), $f(1, 2)]",
-		"$g = rec2, $g(($g = 7, $i = 3), $g)", "$f = rec, $f($f = rec2, 1) + $f(5, 6)"}
+		"$g = rec2, $g(($g = 7, $i = 3), $g)", "$f = rec, $f($f = rec2, 1) + $f(5, 6)",
+		"$i = 0, rec([$i = $i + 1]...)", "$j = 5, rec([$p = $j, $j = $j + 1]...), $p", "rec2([$i = $i + 1, $i = $i + 1]...), $i", "$i = 2, rec([rec($i = $i + 1)]...) + $i"}
 	for i, a := range shapes {
 		for j, b := range shapes {
 			if w.Mine(i*len(shapes) + j) {
